@@ -1,0 +1,26 @@
+//go:build verif
+
+package kernel
+
+import (
+	"github.com/MixinNetwork/mixin/common"
+	"github.com/MixinNetwork/mixin/crypto"
+)
+
+// Thin exported wrappers for the C28 correspondence harness.
+
+const VerifMainnetConsensusReferenceForkAt = mainnetConsensusReferenceForkAt
+
+func (node *Node) VerifValidateKernelSnapshot(s *common.Snapshot, found map[crypto.Hash]*common.VersionedTransaction, finalized bool) error {
+	return node.validateKernelSnapshot(s, found, finalized)
+}
+
+func (node *Node) VerifValidateConsensusTransactionReferences(s *common.Snapshot, tx *common.VersionedTransaction) error {
+	return node.validateConsensusTransactionReferences(s, tx)
+}
+
+func (node *Node) VerifNetworkId() crypto.Hash { return node.networkId }
+
+// VerifSetNetworkId lets the harness run the validators under the mainnet flag
+// (node.networkId == config.KernelNetworkId) on a generated genesis.
+func (node *Node) VerifSetNetworkId(id crypto.Hash) { node.networkId = id }
